@@ -1,6 +1,6 @@
 (* C03 / C07 with the block compressor instantiated for LINKED blocks and dictionaries:
    - level < 2 (LZ4_compress_fast_continue: linked blocks with or without dictionary, independent blocks with a CDict):
-     Proofs.BlkInstLinked;
+     Proofs.BlkInstFastLinked;
    - level >= 3 (LZ4_compress_HC_continue, hash chain / optimal parser: linked blocks, no CDict): Proofs.BlkInstHcLinked.
    The premises on level / block mode / dictionary kind delimit where the instance is what lz4frame.c calls; the oracle
    premises (lorc_ok / horc_ok) are the stream invariants of C11. *)
@@ -8,7 +8,7 @@ From Coq Require Import ZArith List Lia Bool.
 From LZ4V Require Import Gen.Consts Spec.BlockSpec Spec.XXH32 Spec.FrameSpec Model.Mem Model.FrameD Model.FrameC Model.FrameAudit.
 From LZ4V Require Proofs.FrameDProofs Proofs.FrameDChunk.
 From LZ4V Require Import Proofs.FrameCBytes Proofs.FrameCBlocks Proofs.FrameCProofs Proofs.FrameCTheorems Proofs.FrameRoundTrip.
-From LZ4V Require Import Proofs.BlkInst Proofs.BlkInstLinked Proofs.BlkInstHcLinked.
+From LZ4V Require Import Proofs.BlkInst Proofs.BlkInstFastLinked Proofs.BlkInstHcLinked.
 Import ListNotations.
 Local Open Scope Z_scope.
 
